@@ -281,6 +281,7 @@ def gen_events(rng, n, tier="quick"):
     prev = None
     from astral import Observer as _Obs
     shared = _Obs(10.0, 20.0, 0.0)     # ONE object, re-used and re-assigned between calls
+    polar_dep = None
     for i in range(n):
         d0 = gens.rand_date(rng)
         z = zones.rand_zone(rng, d0)
@@ -317,7 +318,31 @@ def gen_events(rng, n, tier="quick"):
             st0, t0 = call(base)
             if st0 == "ok":
                 z = zones.midnight_zone(rng, t0)
+        if rng.random() < 0.07:
+            # beyond the ±89.8° latitude limit, around an equinox — the only days on which the sun
+            # rises or sets there at all, and the only place where the sign of the limit matters
+            from astral import Observer as _O5
+            la = rng.choice([-1, 1]) * rng.choice([rng.uniform(89.8, 90.0), 90.0, 89.80000000000001, 89.9])
+            o = _O5(la, gens.rand_lon(rng), rng.choice([0.0, 0.0, rng.uniform(0, 3000)]))
+            y = rng.randint(1901, 2099)
+            span = 40 if k in (0, 1, 8) else 4          # twilight lasts weeks there, sunrise days
+            d = datetime.date(y, *rng.choice([(3, 20), (9, 22)])) + datetime.timedelta(days=rng.randint(-span, span))
+            z = zones.fixed(60 * rng.randint(-12, 14)) if rng.random() < 0.5 else zones.fixed(0)
+            if k < 4:
+                # the few days on which the event exists at this latitude or at its mirror image
+                fk = {0: lambda oo, dd: sun.dawn(oo, dd, 6.0), 1: lambda oo, dd: sun.dusk(oo, dd, 6.0),
+                      2: sun.sunrise, 3: sun.sunset}[k]
+                om = _O5(-o.latitude, o.longitude, o.elevation)
+                base = datetime.date(y, 3, 20) if d.month < 6 else datetime.date(y, 9, 22)
+                days = [base + datetime.timedelta(days=dd) for dd in range(-45, 46)
+                        if call(fk, o, base + datetime.timedelta(days=dd))[0] == "ok"
+                        or call(fk, om, base + datetime.timedelta(days=dd))[0] == "ok"]
+                if days:
+                    d = rng.choice(days)
+                    polar_dep = 6.0
         dep = gens.rand_depression(rng)
+        if k < 2 and polar_dep is not None:
+            dep, polar_dep = 6.0, None
         fold_case = None
         if k < 8 and rng.random() < 0.05:
             fold_case = repeated_hour(rng, k)
